@@ -267,6 +267,11 @@ class SymbolicExpression(Generic[T], ABC):
         required_output = {k: v for k, v in output.items() if k in required_vars}
         if not required_output:
             return False
+        # the elements flattened out of a required variable are different rows, not duplicates of each other.
+        for k, v in output.items():
+            if k not in required_output and isinstance(self._id_expression_map_.get(k), Flatten):
+                if any(var.id_ in required_vars for var in self._id_expression_map_[k]._unique_variables_):
+                    required_output[k] = v
         # Use a per-parent seen set to avoid suppressing outputs across different parent contexts
         parent_id = self._parent_._id_
         seen_by_truth = self._seen_parent_values_by_parent_.setdefault(parent_id, {True: SeenSet(), False: SeenSet()})
